@@ -542,6 +542,10 @@ def run(pid, tier, seed, rundir, model_run):
             else:
                 mexit = "exit0" if mm.group(1) == "clean" else "exit1"
                 ok = (im == f"exit={mexit} replies={mm.group(3)} tree={mm.group(4)}")
+                if not ok and im.count("|") > mm.group(3).count("|") and "replies=" in im and im.split("replies=")[1].split(" tree=")[0]:
+                    # the real server answered MORE requests than the byte stream frames: bytes that are not a
+                    # request (Put content, or the rest of a stream the session should have abandoned) were interpreted
+                    res["violations"].append(("stream-out-of-step", "the server answered more requests than the stream contains: content bytes / abandoned input were interpreted as requests", dict(rep, impl=im[:600], model=mo[:600])))
                 if int(mm.group(2)) > MAX_FRAME:
                     res["violations"].append(("model-alloc-above-bound", "model reserved a control frame above 1 MiB", rep))
         else:
